@@ -140,6 +140,104 @@ theorem pixel_sersic_total (N : ℕ) (hN : 0 < N) (ρx ρy : RampConst) (s0 s1 :
   rw [scene_total N hN]
   simp [fzero, Cx.zero, imgSum, izero]
 
+
+/-! ### pixel renderer: point source total (partition of unity of linear interpolation) -/
+
+/-- the hat weights of all integer nodes sum to one when both neighbours of t are in range -/
+theorem hat_partition (M : ℕ) (t : ℝ) (h0 : 0 ≤ t) (h1 : t ≤ (M : ℝ) - 1) (hM : 1 ≤ M) :
+    ∑ r ∈ Finset.range M, hat ((r : ℝ) - t) = 1 := by
+  simp only [C03.hat_real]
+  set k := ⌊t⌋₊ with hk
+  have hkle : (k : ℝ) ≤ t := Nat.floor_le h0
+  have hklt : t < (k : ℝ) + 1 := Nat.lt_floor_add_one t
+  have hkM : k < M := by
+    have : (k : ℝ) ≤ (M : ℝ) - 1 := le_trans hkle h1
+    have h2 : (k : ℝ) + 1 ≤ (M : ℝ) := by linarith
+    exact_mod_cast h2
+  have hzero : ∀ r : ℕ, r ≠ k → r ≠ k + 1 → max 0 (1 - |(r : ℝ) - t|) = 0 := by
+    intro r h1' h2'
+    apply max_eq_left
+    rcases Nat.lt_or_ge r k with hlt | hge
+    · have : (r : ℝ) + 1 ≤ k := by exact_mod_cast hlt
+      have : (r : ℝ) - t ≤ -1 := by linarith
+      rw [abs_of_nonpos (by linarith)]; linarith
+    · have hge2 : k + 2 ≤ r := by omega
+      have : (k : ℝ) + 2 ≤ r := by exact_mod_cast hge2
+      rw [abs_of_nonneg (by linarith)]; linarith
+  by_cases hk1 : k + 1 < M
+  · rw [Finset.sum_eq_add (a := k) (b := k + 1) (by omega)
+        (fun r _ hr => hzero r hr.1 hr.2) (fun h => absurd (Finset.mem_range.mpr hkM) h)
+        (fun h => absurd (Finset.mem_range.mpr hk1) h)]
+    have e1 : max 0 (1 - |(k : ℝ) - t|) = 1 - (t - k) := by
+      rw [abs_of_nonpos (show (k : ℝ) - t ≤ 0 by linarith), max_eq_right (show (0 : ℝ) ≤ 1 - -((k : ℝ) - t) by linarith)]
+      ring
+    have e2 : max 0 (1 - |((k + 1 : ℕ) : ℝ) - t|) = t - k := by
+      push_cast
+      rw [abs_of_nonneg (show (0 : ℝ) ≤ (k : ℝ) + 1 - t by linarith)]
+      rw [max_eq_right (by linarith)]; ring
+    rw [e1, e2]; ring
+  · -- k + 1 = M: then t = k exactly (t ≤ M − 1 = k)
+    have hkeq : k + 1 = M := by omega
+    have ht : t = k := by
+      have : (M : ℝ) = k + 1 := by exact_mod_cast hkeq.symm
+      linarith
+    rw [Finset.sum_eq_single k (fun r hr hne => hzero r hne (by have := Finset.mem_range.mp hr; omega))
+        (fun h => absurd (Finset.mem_range.mpr hkM) h)]
+    rw [ht]; simp
+
+/-- **pixel renderer: a point source whose interpolated stamp lies inside the frame carries exactly
+flux·ΣPSF** (any fractional position, any stamp size, either addressing convention) -/
+theorem pixel_pointsource_total (κ : PsConv) (N s0 s1 : ℕ) (psf : Img ℝ) (xc yc flux : ℝ) (hN : 1 ≤ N)
+    (hy0 : 0 ≤ (if κ.rowsByY then yc else xc) - (if κ.centreIsGeometric then ((s0 : ℝ) - 1) / 2 else (s0 : ℝ) / 2))
+    (hy1 : (if κ.rowsByY then yc else xc) - (if κ.centreIsGeometric then ((s0 : ℝ) - 1) / 2 else (s0 : ℝ) / 2) + s0 ≤ N)
+    (hx0 : 0 ≤ (if κ.rowsByY then xc else yc) - (if κ.centreIsGeometric then ((s1 : ℝ) - 1) / 2 else (s1 : ℝ) / 2))
+    (hx1 : (if κ.rowsByY then xc else yc) - (if κ.centreIsGeometric then ((s1 : ℝ) - 1) / 2 else (s1 : ℝ) / 2) + s1 ≤ N) :
+    imgSum N (pixelPointSource κ s0 s1 psf xc yc flux) = flux * psfSum s0 s1 psf := by
+  set A0 := (if κ.rowsByY then yc else xc) - (if κ.centreIsGeometric then ((s0 : ℝ) - 1) / 2 else (s0 : ℝ) / 2) with hA0
+  set B0 := (if κ.rowsByY then xc else yc) - (if κ.centreIsGeometric then ((s1 : ℝ) - 1) / 2 else (s1 : ℝ) / 2) with hB0
+  -- both conventions are the same double hat-sum with (row, column) roles exchanged
+  have hrows : ∀ i : ℕ, i < s0 → ∑ r ∈ Finset.range N, hat ((r : ℝ) - A0 - i) = 1 := by
+    intro i hi
+    have hi' : (i : ℝ) + 1 ≤ s0 := by exact_mod_cast hi
+    have := hat_partition N (A0 + i) (by positivity) (by linarith) hN
+    simpa [sub_sub] using this
+  have hcols : ∀ j : ℕ, j < s1 → ∑ c ∈ Finset.range N, hat ((c : ℝ) - B0 - j) = 1 := by
+    intro j hj
+    have hj' : (j : ℝ) + 1 ≤ s1 := by exact_mod_cast hj
+    have := hat_partition N (B0 + j) (by positivity) (by linarith) hN
+    simpa [sub_sub] using this
+  have key : ∀ (F : ℕ → ℕ → ℝ),
+      (∀ r c, F r c = ∑ i ∈ Finset.range s0, ∑ j ∈ Finset.range s1, psf i j * flux * (hat ((r : ℝ) - A0 - i) * hat ((c : ℝ) - B0 - j))) →
+      ∑ r ∈ Finset.range N, ∑ c ∈ Finset.range N, F r c = flux * ∑ i ∈ Finset.range s0, ∑ j ∈ Finset.range s1, psf i j := by
+    intro F hF
+    simp only [hF]
+    have swap1 : ∀ r : ℕ, ∑ c ∈ Finset.range N, ∑ i ∈ Finset.range s0, ∑ j ∈ Finset.range s1,
+        psf i j * flux * (hat ((r : ℝ) - A0 - i) * hat ((c : ℝ) - B0 - j))
+        = ∑ i ∈ Finset.range s0, ∑ j ∈ Finset.range s1, psf i j * flux * hat ((r : ℝ) - A0 - i) := by
+      intro r
+      rw [Finset.sum_comm]
+      apply Finset.sum_congr rfl; intro i _
+      rw [Finset.sum_comm]
+      apply Finset.sum_congr rfl; intro j hj
+      rw [← Finset.mul_sum, ← Finset.mul_sum, hcols j (Finset.mem_range.mp hj), mul_one]
+    simp only [swap1]
+    rw [Finset.sum_comm, Finset.mul_sum]
+    apply Finset.sum_congr rfl; intro i hi
+    rw [Finset.sum_comm, Finset.mul_sum]
+    apply Finset.sum_congr rfl; intro j _
+    rw [← Finset.mul_sum, hrows i (Finset.mem_range.mp hi)]
+    ring
+  simp only [imgSum, psfSum, sumN_real]
+  cases hκ : κ.rowsByY
+  · -- stamp rows addressed by the image column: exchange the roles of r and c
+    rw [Finset.sum_comm]
+    apply key (fun c r => pixelPointSource κ s0 s1 psf xc yc flux r c)
+    intro c r
+    simp only [pixelPointSource, hκ, bilinear, sumN_real, hA0, hB0, one_real, two_real, if_false, Bool.false_eq_true]
+  · apply key (fun r c => pixelPointSource κ s0 s1 psf xc yc flux r c)
+    intro r c
+    simp only [pixelPointSource, hκ, bilinear, sumN_real, hA0, hB0, one_real, two_real, if_true]
+
 /-! ### composites and catalogues -/
 
 /-- totals are additive over components / sources -/
